@@ -34,6 +34,9 @@ type C07Plan struct {
 	// LightSide (checkpoint kind): the bad branch is much lighter than the honest chain and is delivered after the honest
 	// headers below the checkpoint, so the contradicting header is STALE when it is stored
 	LightSide bool `json:"lightSide,omitempty"`
+	// BadOnce (legacy, checkpoint kind): the bad node accepts one connection at a time and is gone for good after its
+	// offence; nobody announces anything afterwards - the service must move on to the honest nodes by itself
+	BadOnce bool `json:"badOnce,omitempty"`
 	// StrictRedelivery (reproducer of an open finding only): a connection on which the contradicting header is delivered
 	// AGAIN (the service has it already) is expected to be closed as well
 	StrictRedelivery bool   `json:"strictRedelivery,omitempty"`
@@ -319,6 +322,10 @@ func runC07Once(p *C07Plan, long bool) (*stats.Case, error) {
 	if err := notServed("after the offence"); err != nil {
 		return nil, err
 	}
+	if p.BadOnce {
+		badNode.RefuseNew()
+		badNode.DropAll()
+	}
 	// (3) legacy + forbidden: the host is banned: no request reaches it during the ban
 	banChecked := false
 	if sawOffence && p.Engine == "legacy" && p.Kind == "forbidden" && p.BanMs >= 1500 {
@@ -499,6 +506,11 @@ func genC07(t *rapid.T) *C07Plan {
 			// service never reaches (its light branch stays STALE) and answers with known headers only - the manager moves
 			// on by its sync-peer rotation, not within this check's bound
 			p.NoConvergence = true
+		}
+		if p.Engine == "legacy" && !p.VariantB && !p.LightSide && !p.NoConvergence && rapid.IntRange(0, 2).Draw(t, "badonce") == 0 {
+			p.BadOnce = true
+			p.BadSpec.MaxConns = 1
+			p.FinalAnn = false
 		}
 		// the honest chain stays strictly heavier than the bad branch (equal work would leave the first-seen branch as tip)
 		if over := p.ForkAt + p.BadLen - (p.HonestLen - 1); over > 0 {
